@@ -244,19 +244,20 @@ def classify(c, outcome, val=None):
         return 'C01:unclassified:%s:wrong-value' % fn
     if fn == 'c_pressure':
         v, m1, m2, u1, u2 = a[:5]
-        if outcome == 'Ok' and m1 == m2 and m1 in ('absolute', 'relative', 'relative%'):
+        if outcome == 'Ok' and m1 == m2 == 'absolute' and not u2:
             return 'C01:same-mode-labels-unchecked'
     if fn == 'c_loading':
         v, b1, b2, u1, u2, ak, T, bm, um = a
         known = ('mass', 'volume_gas', 'volume_liquid', 'molar', 'percent', 'fraction')
-        if outcome == 'Ok' and b1 == b2 and b1 in known:
+        if outcome == 'Ok' and b1 == b2 and b1 in known and (not u2 or u1 == u2):
             return 'C01:same-basis-labels-unchecked'
         if outcome in ('KeyError', 'TypeError') and b1 in known and b2 in known and b1 != b2 and \
-                ((b1 in ('fraction', 'percent')) != (b2 in ('fraction', 'percent'))):
+                ((b1 in ('fraction', 'percent')) != (b2 in ('fraction', 'percent'))) and \
+                not (bm in ('mass', 'volume', 'molar') and um in {'mass': MASSU, 'volume': VOLU, 'molar': MOLU}[bm]):
             return 'C01:fraction-bad-material-labels-KeyError'
     if fn == 'c_material':
         v, b1, b2, u1, u2, mk = a
-        if outcome == 'Ok' and b1 == b2 and b1 in ('mass', 'volume', 'molar'):
+        if outcome == 'Ok' and b1 == b2 and b1 in ('mass', 'volume', 'molar') and (not u2 or u1 == u2):
             return 'C01:same-basis-labels-unchecked'
     return 'C01:unclassified:%s:%s' % (fn, outcome)
 
